@@ -1709,6 +1709,9 @@ class IRGenerator:
 
         # Parse the route whitelist and populate any starting data types
         route_data_types = []
+        # Routes mentioned in the docs of whitelisted routes are retained too,
+        # like the ones mentioned in the docs of retained data types.
+        doc_routes_by_ns = defaultdict(set)
         for namespace_name, route_reprs in route_whitelist.items():
             # Error out if user supplied nonexistent namespace
             if namespace_name not in self.api.namespaces:
@@ -1736,6 +1739,10 @@ class IRGenerator:
                 if route.doc is not None:
                     route_data_types.extend(
                         parse_data_types_from_doc_ref(self.api, route.doc, namespace_name))
+                    _, routes_by_ns = parse_data_types_and_routes_from_doc_ref(
+                        self.api, route.doc, namespace_name)
+                    for doc_ns_name, doc_routes in routes_by_ns.items():
+                        doc_routes_by_ns[doc_ns_name].update(doc_routes)
 
         # Parse the datatype whitelist and populate any starting data types
         for namespace_name, datatype_names in self._routes['datatype_whitelist'].items():
@@ -1771,7 +1778,8 @@ class IRGenerator:
             namespace.alias_by_name = {a.name: a for a in namespace.aliases}
 
             output_route_reprs = [output_route.name_with_version()
-                                  for output_route in output_routes_by_ns[namespace.name]]
+                                  for output_route in (output_routes_by_ns[namespace.name] |
+                                                       doc_routes_by_ns[namespace.name])]
             if namespace.name in route_whitelist:
                 whitelisted_route_reprs = route_whitelist[namespace.name]
                 route_reprs = list(set(whitelisted_route_reprs + output_route_reprs))
